@@ -32,7 +32,7 @@ func init() {
 		Technique: "per-path ledger balance over E-literals (every feasible combination of balance/supply updates at an exit sums to zero), single writers, term checks of the stored records and notifications, boundary-operator agreement over all time/expiration comparisons, ordering of release before credit",
 		Explanation: "D1 total supply, balances and the token index are written only by updateTotalSupply/updateBalance (and the deploy initialisation). D2 at every normal exit of every ABI method, every combination of executed updateBalance/updateTotalSupply calls that the exit facts allow has Σ balance diffs = Σ supply diffs. " +
 			"D3 one Transfer(from, to, 1, name) per ownership change, emitted exactly with the record write, from = the previous owner term (the stored owner whenever a balance was released). D4 Transfer stores the loaded record with Owner := to, Admin := nil. D5 Renew: 1 ≤ years ≤ 10, expiration += 365·24·3600·1000·years, the ten-year bound is enforced for non-TLD names. " +
-			"D6 every direct comparison between the block time and an Expiration field puts t == expiration on the expired side (sibling sites agree on the boundary). D7 OwnerOf/Properties return only with 'not expired' and 'parents alive' established; when a re-registration releases the old owner's entry the credit of the new owner has not yet been written (so re-registration by the same owner keeps its token index entry). D8 Transfer and Register hand control to the receiver (onNEP11Payment) only after all their stores (callback-last). M: Register stores only names of at least two labels, with the TLD present, parents alive and over an absent or expired record; RegisterTLD one label, free, root marker written; Transfer rewrites the record on every successful transfer to another account; updateBalance stores or deletes exactly by the new balance, continuing from the stored one; parentExpired level loop (range, pass only present ∧ unexpired, expired only for a missing or expired level); Renew refuses only outside 1 … 10 years / 255 bytes / the cap. R10: the parent-conflict helper reports a conflict only for a real sub-name record (shared with C12). R11: the step rules of updateBalance run for every constant an entry point hands over: for 0 the balance is stored unchanged and the token index entry is not deleted. S3: IsAvailable answers the constant 'taken' only where the liveness helper found the name and its parents unexpired (taken-only-if-alive).",
+			"D6 every direct comparison between the block time and an Expiration field puts t == expiration on the expired side (sibling sites agree on the boundary). D7 OwnerOf/Properties return only with 'not expired' and 'parents alive' established; when a re-registration releases the old owner's entry the credit of the new owner has not yet been written (so re-registration by the same owner keeps its token index entry). D8 Transfer and Register hand control to the receiver (onNEP11Payment) only after all their stores (callback-last). M: Register stores only names of at least two labels, with the TLD present, parents alive and over an absent or expired record; RegisterTLD one label, free, root marker written; Transfer rewrites the record on every successful transfer to another account; updateBalance stores or deletes exactly by the new balance, continuing from the stored one; parentExpired level loop (range, pass only present ∧ unexpired, expired only for a missing or expired level); Renew refuses only outside 1 … 10 years / 255 bytes / the cap. R10: the parent-conflict helper reports a conflict only for a real sub-name record (shared with C12). R11: the step rules of updateBalance run for every constant an entry point hands over: for 0 the balance is stored unchanged and the token index entry is not deleted. S3: IsAvailable answers the constant 'taken' only where the liveness helper found the name and its parents unexpired (taken-only-if-alive). R13 catching-frame: no function with a deferred recover that a method of the property's contracts can reach lies outside the who-may-catch table (container.deleteNNSRecords).",
 		NotCovered: "availability over time and token enumeration equality with a model; the accounting identity over histories is the inductive consequence of D1–D2, not executed.",
 		Run:        runC10,
 	})
@@ -41,7 +41,7 @@ func init() {
 		Level:     "other",
 		Technique: "abstract interpretation: gate entailment with subject agreement — the NameState whose owner/admin is witnessed is the record keyed by the same token-id term that keys the record being changed",
 		Explanation: "For addRecord, setRecord, deleteRecords, updateSOA, renew: every effect is gated by committee-majority ∨ W(owner(T)) ∨ W(admin(T)) where T is exactly the token id that keys the written/deleted record; transfer by W(owner(token)); setAdmin by W(owner(name)) and additionally (admin == nil ∨ W(admin)); register by W(owner argument) and, for names of level > 2, additionally by the admin formula of the directly enclosing name (name without its first label); TLD registration by the committee (C03). " +
-			"Rights follow ownership because the gate reads the stored record in the same invocation and Transfer clears the admin (C10.D4). D5 Transfer stores the record with Admin := nil (transfer-resets-admin). M: SetAdmin stores the record on every normal return. R7: the documented gates of the NNS mutators (the gate rule of C03) are decided here as well. R8: the token whose owner/admin is asked is the one tokenIDFromName names (record-owner, shared with C12). S3: a registration (Register, RegisterTLD; first or take-over) stores Admin = nil (register-without-admin).",
+			"Rights follow ownership because the gate reads the stored record in the same invocation and Transfer clears the admin (C10.D4). D5 Transfer stores the record with Admin := nil (transfer-resets-admin). M: SetAdmin stores the record on every normal return. R7: the documented gates of the NNS mutators (the gate rule of C03) are decided here as well. R8: the token whose owner/admin is asked is the one tokenIDFromName names (record-owner, shared with C12). S3: a registration (Register, RegisterTLD; first or take-over) stores Admin = nil (register-without-admin). R13 catching-frame: no function with a deferred recover that a method of the property's contracts can reach lies outside the who-may-catch table (container.deleteNNSRecords).",
 		NotCovered: "signer sets over evolving histories at run time (the statement is over program paths and stored state at invocation time).",
 		Run:        runC11,
 	})
@@ -50,7 +50,7 @@ func init() {
 		Level:     "other",
 		Technique: "must-facts at the record stores (limits, CNAME uniqueness, replace-only), exit facts (SOA refresh on every path), key-schema analysis of the record family, constant/argument checks of the redirect budget",
 		Explanation: "D1 AddRecord stores only with id ≤ 15 and ¬(CNAME ∧ id ≠ 0), id = number of existing records of that type; SetRecord stores only after the record with that id was read as present. D2 DeleteRecords never runs for SOA and deletes exactly the scanned keys of (token, name, type). D3 every normal path of AddRecord/SetRecord/DeleteRecords refreshes the SOA serial of the same token. " +
-			"D4 Resolve starts with budget 2, the recursive call passes budget − 1 and a negative budget cannot return. D5 Register stores only with 'no conflicting parent record' established. D6 the record key is 0x22 ‖ hash(20) ‖ hash(20) ‖ type(1) ‖ id(1): fixed width, so the three scans are exact. D7 GetRecords/GetAllRecords/resolve scan the records of a token only with its own and its parents' liveness established; D8 resolve follows the CNAME only after the loop over the name's own records. M: AddRecord stores only after the data was compared with every record of the scan on the equal side (distinct values); type filters collect on the equal side; tokenIDFromName returns a proper suffix only when registered and unexpired and passes a level only when it is not; the conflict helper reports only names that end with '.'‖name and 'none' only after exhaustion.",
+			"D4 Resolve starts with budget 2, the recursive call passes budget − 1 and a negative budget cannot return. D5 Register stores only with 'no conflicting parent record' established. D6 the record key is 0x22 ‖ hash(20) ‖ hash(20) ‖ type(1) ‖ id(1): fixed width, so the three scans are exact. D7 GetRecords/GetAllRecords/resolve scan the records of a token only with its own and its parents' liveness established; D8 resolve follows the CNAME only after the loop over the name's own records. M: AddRecord stores only after the data was compared with every record of the scan on the equal side (distinct values); type filters collect on the equal side; tokenIDFromName returns a proper suffix only when registered and unexpired and passes a level only when it is not; the conflict helper reports only names that end with '.'‖name and 'none' only after exhaustion. R13 catching-frame: no function with a deferred recover that a method of the property's contracts can reach lies outside the who-may-catch table (container.deleteNNSRecords).",
 		NotCovered: "equality of getRecords/getAllRecords/resolve with a reference model; duplicate detection inside the scan loop.",
 		Run:        runC12,
 	})
@@ -59,7 +59,7 @@ func init() {
 		Level:     "other",
 		Technique: "must-facts: validation precedes every state change; dispatch coverage of the record types; numeric limits as facts at the accepting exits of the validators; digit fact on the first byte before every decimal Atoi",
 		Explanation: "D1 Register/RegisterTLD reach their first effect only after splitAndCheck accepted the name, AddRecord/SetRecord only after the type-specific validator accepted the data (A: checkIPv4, AAAA: checkIPv6, CNAME: name syntax, TXT: ≤ 255) and only for these four types; the accepting exits of the name validators establish 3 ≤ len ≤ 255, fragment length 1..63 (root: ≤ 16, first byte a letter). " +
-			"D2 sign-accepting parser: every decimal std.Atoi/Atoi10 in a validator is reached only with the first byte of its argument established to be a digit. D3 first and last byte of an accepted fragment are in [a-z0-9], the inner bytes are checked by one loop over 1…len−2 whose iterations complete only for '-' or [a-z0-9]. M: the fragment validator and safeSplitAndCheck are decided in both directions: no rejecting exit is satisfiable together with every documented condition. R6: a decimal fragment is accepted only if it does not start with '0' or is one byte long (canonical-decimal); in the ':'-splitting validator the zero-filled range of the elided run and the shifted slot of a later group are adjacent (gap-alignment). R8: every storage key Register writes for a valid name fits the 64-byte key limit (no raw name component). R9: a fragment is refused as 'not a byte' only outside 0 … 255. S3: the level rules of the helper that finds the governing token (a stored but expired level is passed, not returned) are decided here as well: a well-formed record below an expired intermediate level is filed, not refused.",
+			"D2 sign-accepting parser: every decimal std.Atoi/Atoi10 in a validator is reached only with the first byte of its argument established to be a digit. D3 first and last byte of an accepted fragment are in [a-z0-9], the inner bytes are checked by one loop over 1…len−2 whose iterations complete only for '-' or [a-z0-9]. M: the fragment validator and safeSplitAndCheck are decided in both directions: no rejecting exit is satisfiable together with every documented condition. R6: a decimal fragment is accepted only if it does not start with '0' or is one byte long (canonical-decimal); in the ':'-splitting validator the zero-filled range of the elided run and the shifted slot of a later group are adjacent (gap-alignment). R8: every storage key Register writes for a valid name fits the 64-byte key limit (no raw name component). R9: a fragment is refused as 'not a byte' only outside 0 … 255. S3: the level rules of the helper that finds the governing token (a stored but expired level is passed, not returned) are decided here as well: a well-formed record below an expired intermediate level is filed, not refused. R13 catching-frame: no function with a deferred recover that a method of the property's contracts can reach lies outside the who-may-catch table (container.deleteNNSRecords).",
 		NotCovered: "that the validators accept exactly the well-formed strings (hand-written scanners over run-time strings: IPv6 groups, inner hyphens, boundary lengths) — declared not applicable to this family; of the IPv4/IPv6 scanners only the leading-zero and the gap-alignment clauses are decided.",
 		Run:        runC18,
 	})
